@@ -19,6 +19,7 @@ Require Import Mistral.Gen.States Mistral.Model.Engine.
 Require Import Mistral.Proofs.StatesProofs Mistral.Proofs.EngineWf Mistral.Proofs.EngineSafety Mistral.Proofs.EngineMore
                Mistral.Proofs.EngineLive Mistral.Proofs.EngineDen.
 From Coq Require Import Permutation.
+Require Mistral.Model.StopTree Mistral.Proofs.StopTreeProofs.
 Import ListNotations.
 
 Theorem C10_no_creation_while_paused : forall sp s e,
@@ -124,3 +125,58 @@ Example C10_nonvacuous :
   ntasks (fst (step sp s (EFire (IResult 0 OOk)))) = ntasks s /\
   ntasks (steps sp s [EFire (IResult 0 OOk); EResume]) = S (ntasks s).
 Proof. vm_compute. repeat split. Qed.
+
+(* ====================================================================== *)
+(* pause over the execution tree (Model/StopTree.v): "after a pause request is acknowledged the workflow and its
+   running sub-workflows are PAUSED" - for every tree, every address, every state *)
+Module Tree.
+Import Mistral.Model.StopTree Mistral.Proofs.StopTreeProofs.
+
+(* closed form of the pause walk: exactly the RUNNING executions of the subtree become PAUSED, everything else keeps its row *)
+Theorem C10_pause_walk_exact : forall n c,
+  Forall2 (fun r r' => r_child r' = r_child r /\ r_info r' = r_info r /\ r_sent r' = r_sent r /\
+                       r_state r' = if state_eqb (r_state r) RUNNING then PAUSED else r_state r)
+          (rows c n) (rows c (pause_down n)).
+Proof. exact pause_down_exact. Qed.
+Print Assumptions C10_pause_walk_exact.
+
+Theorem C10_no_running_execution_below_a_paused_one : forall n c,
+  forallb (fun r => negb (state_eqb (r_state r) RUNNING)) (rows c (pause_down n)) = true.
+Proof. exact pause_down_no_running. Qed.
+Print Assumptions C10_no_running_execution_below_a_paused_one.
+
+(* an accepted pause request for the execution at ANY address (the request may go on upwards through Plain parent
+   tasks and pause the enclosing executions): the subtree of that execution is exactly its paused form *)
+Theorem C10_pause_acknowledged_subtree_paused : forall p n n' up c,
+  pause_path p n = Some (n', up) -> subtree p n = Some c -> subtree p n' = Some (pause_down c).
+Proof. exact pause_path_subtree. Qed.
+Print Assumptions C10_pause_acknowledged_subtree_paused.
+
+Theorem C10_pause_of_root : forall n,
+  in_class n = true -> (nstate n = RUNNING \/ nstate n = PAUSED) ->
+  pause_at [] n = (pause_down n, Ok).
+Proof. exact pause_at_root. Qed.
+Print Assumptions C10_pause_of_root.
+
+(* pause and resume never touch a finished execution and never make one report again *)
+Theorem C10_pause_resume_keep_finished_executions : forall ops n,
+  Forall2 (fun r r' => r_fin r = true -> r' = r) (rows false n) (rows false (fold_left apply_op ops n)).
+Proof. exact finished_rows_never_change. Qed.
+Print Assumptions C10_pause_resume_keep_finished_executions.
+
+Example C10_tree_nonvacuous :
+  let leaf := mkN RUNNING 0 0 [(RUNNING, Plain, [])] in
+  let forced := mkN ERROR 7 1 [(RUNNING, Plain, [leaf])] in
+  let mid := mkN RUNNING 0 0 [(RUNNING, Items, [forced; leaf]); (RUNNING, Plain, [leaf])] in
+  let root := mkN RUNNING 0 0 [(RUNNING, Plain, [mid]); (SUCCESS, Plain, [])] in
+  (* pause of the innermost execution below the finished one: goes up to the finished parent and stops there *)
+  map (fun x : row => snd (fst (fst x))) (rows false (fst (pause_at [(0, 0); (0, 0); (0, 0)] root))) =
+    [RUNNING; RUNNING; ERROR; PAUSED; RUNNING; RUNNING] /\
+  (* pause of the sub-workflow of the Plain task of mid: goes up to the root; everything RUNNING is PAUSED *)
+  map (fun x : row => snd (fst (fst x))) (rows false (fst (pause_at [(0, 0); (1, 0)] root))) =
+    [PAUSED; PAUSED; ERROR; PAUSED; PAUSED; PAUSED] /\
+  snd (pause_at [(0, 0); (1, 0)] root) = Ok /\
+  map (fun x : row => snd (fst (fst x))) (rows false (fst (resume_at [] (fst (pause_at [] root))))) =
+    [RUNNING; RUNNING; ERROR; RUNNING; RUNNING; RUNNING].
+Proof. vm_compute. repeat split. Qed.
+End Tree.
